@@ -23,6 +23,12 @@ This module ties the model to the real server over TCP (`--appendonly yes`) and 
   (d) for histories inside the model the Lean dumps of `live` and of `replayAt` are compared with the two servers,
       and the theorem's prediction "every event covered ⇒ replay = live" is tested on the implementation.
 
+What the tree already does is taken from the translator's facts (`selectTracked`, `wakeLogs`, `blockingPopLogged`, the
+table): those deviations are then part of the expected log (`Runner.base`), the Lean driver is configured with the
+same switches (`cfg <table> <logSelect> <logWake>`), and a listed finding whose fixed witness no longer diverges is
+reported as stale.  Self-test switches (violation path only): VERIF_C11_IGNORE_FINDINGS=all|id,id…,
+VERIF_C11_SABOTAGE=drop-entry (replays the file without its last entry).
+
 A history is a JSON-serialisable plan (list of ops) + the database it runs in, so every failure replays exactly:
   ["direct", [arg-hex…]]                      one command on the observed connection
   ["exec", [[arg-hex…], …]]                   MULTI, the commands, EXEC
@@ -325,8 +331,8 @@ def gen_plan(r, profile, ks_only, n_ops, covered_only=False):
             plan.append(["direct", [hx(a) for a in g.command()]])
         elif path == "exec":
             cmds = [g.command() for _ in range(r.range(1, 4))]
-            if r.chance(1, 12):
-                # EXEC passes connection id 0: a SELECT inside a transaction selects nothing
+            if r.chance(1, 12) and not covered_only:
+                # a SELECT inside a transaction selects for the rest of the transaction and afterwards
                 cmds.insert(r.below(len(cmds) + 1), [b"SELECT", b"%d" % r.range(0, 15)])
             plan.append(["exec", [[hx(a) for a in c] for c in cmds]])
         elif path == "script":
@@ -409,8 +415,11 @@ def spec_log(events, write_table, repairs, evalsha_db0=False):
         name, eff, inner = e.name(), e.eff(), e.inner()
         logged = name in write_table
         if name == "SELECT":
-            if not e.via_exec and e.reply == ("s", b"OK"):
+            # (a SELECT executed by EXEC goes through handle_select directly: it selects, and can never be appended)
+            if e.reply == ("s", b"OK"):
                 conn_db = int(e.raw[1])
+            if e.via_exec:
+                continue
             if logged:
                 out.append(e.raw)
             continue
@@ -620,6 +629,8 @@ class Runner:
             raise InternalError("EXEC reply %r for %d queued commands" % (r, len(queued)))
         for c, sub in zip(queued, r[1]):
             self.event(c, sub, via_exec=True)
+            if c[0].upper() == b"SELECT" and sub == ("s", b"OK"):
+                self.db = int(c[1])         # a queued SELECT selects (and the selection stays after EXEC)
         if self.check_every_command:
             self.check_whole_frames("after EXEC")
 
@@ -762,6 +773,19 @@ def judge(R, plan, db, ks_only, fs, tag, check_every_command=False):
             rep.evaluations += 1
             if rd != want:
                 res["disagree"].append({"kind": "reader", "why": "Aof.readLog on the file differs from the harness's reader", "model": rd[:400], "harness": want[:400], "history": hist})
+            if 0 < len(appended) < 3000:
+                # the model of ferrous's incremental parser, fed the real bytes in an uneven chunking (log_parses_under_any_chunking)
+                sizes, chunks, i, j = [1, 7, 64, 3, 500, 2, 29], [], 0, len(appended) % 7
+                while i < len(appended):
+                    n = sizes[j % len(sizes)]
+                    chunks.append(appended[i:i + n])
+                    i += n
+                    j += 1
+                got = R.ask("chunks " + "|".join(hx(c) for c in chunks))
+                rep.evaluations += 1
+                if got != want[:-len(" # clean")]:
+                    res["disagree"].append({"kind": "chunked-parser", "why": "runChunks on the real file bytes does not yield the file's commands",
+                                            "model": got[:400], "harness": want[:400], "history": hist})
     # (c) replay into a fresh server
     dbs = dbs_of(events, db)
     live = R.dump_live(dbs)
@@ -1080,8 +1104,14 @@ def main(tier, seed):
                           {"correspondence": "Aof.log, Aof.live, Aof.replayAt vs appendonly.aof and two servers", "disagreements": disagree[:6]}, no_input=True)
         else:
             # a listed finding whose fixed witness no longer diverges: the proof base (exception lists, witness lemmas) is stale
+            bin_restarts = [o for o in rep.extra.get("restart_observations", []) if o.get("binary_values")]
+            if bin_restarts and all(o.get("started") for o in bin_restarts):
+                witnessed.add("non-utf8-start-repaired")
             for f in fs:
                 cause = [c for c, m in CAUSE_MATCH.items() if m == f.get("match")]
+                if cause and cause[0] == "non-utf8-start" and "non-utf8-start-repaired" in witnessed and f["id"] not in confirmed:
+                    rep.violation("known finding %s no longer reproduces (the server restarts on a file with binary arguments): KNOWN_FINDINGS is stale" % f["id"],
+                                  {"finding": f, "restarts": bin_restarts}, no_input=True)
                 if cause and cause[0] in CAUSES and cause[0] not in witnessed and f["id"] not in confirmed:
                     rep.violation("known finding %s no longer reproduces on its witness: KNOWN_FINDINGS / Spec.notLogged / witness lemmas are stale" % f["id"],
                                   {"finding": f, "obligation": f.get("lean_witness")}, no_input=True)
